@@ -187,8 +187,15 @@ def run_mapping(
         log.add_msg(traceback_msg)
         raise
     finally:
-        _clean_up(tmp_result_dir)
-        _clean_up(tmp_dir)
+        for scratch_dir in (tmp_result_dir, tmp_dir):
+            try:
+                _clean_up(scratch_dir)
+            except OSError as cleanup_error:
+                # e.g. a worker that outlived a failed sibling is still
+                # writing into the directory; do not let that prevent
+                # the log and the output files from being written
+                log.add_msg(
+                    f"could not remove scratch directory: {cleanup_error}")
         log.info("CLEANING UP")
         if log_path is not None:
             log.write_log(log_path, cloud_safe=config['cloud_safe'])
